@@ -172,16 +172,25 @@ func (e *ContainerEdits) Validate() error {
 		return fmt.Errorf("invalid container edits: %w", err)
 	}
 	for _, d := range e.DeviceNodes {
+		if d == nil {
+			return errors.New("invalid (nil) device node")
+		}
 		if err := (&DeviceNode{d}).Validate(); err != nil {
 			return err
 		}
 	}
 	for _, h := range e.Hooks {
+		if h == nil {
+			return errors.New("invalid (nil) hook")
+		}
 		if err := (&Hook{h}).Validate(); err != nil {
 			return err
 		}
 	}
 	for _, m := range e.Mounts {
+		if m == nil {
+			return errors.New("invalid (nil) mount")
+		}
 		if err := (&Mount{m}).Validate(); err != nil {
 			return err
 		}
